@@ -1,11 +1,12 @@
 #!/usr/bin/env python3
 """Write one prompt per property for a new round of independently written seeded changes.
 
-usage: tools/make_seed_prompts.py <outdir> <worktree-root> <aim-file>
+usage: tools/make_seed_prompts.py <outdir> <worktree-root> <aim-file> [<hints.json>]
 
 Each prompt contains only the property text (title, statement, quantifier), the agent's own
 scratch worktree and output directory, what the earlier seeded changes for that property needed
-(seeded/*/meta.json: needs_to_manifest) and the aim of this round (free text from <aim-file>).
+(seeded/*/meta.json: needs_to_manifest), the aim of this round (free text from <aim-file>) and,
+optionally, per-property source locations that no earlier change touched (<hints.json>).
 Nothing else from /verif is shown to the authors.
 """
 import glob
@@ -15,6 +16,7 @@ import sys
 
 ROOT = os.path.dirname(os.path.dirname(os.path.abspath(__file__)))
 out, wtroot, aimfile = sys.argv[1:4]
+hints = json.load(open(sys.argv[4])) if len(sys.argv) > 4 else {}
 template = open(os.path.join(ROOT, "tools", "seed_prompt_template.txt")).read()
 aim = open(aimfile).read().strip()
 for line in open(os.path.join(ROOT, "properties.jsonl")):
@@ -29,6 +31,10 @@ for line in open(os.path.join(ROOT, "properties.jsonl")):
                  "Their changes needed, respectively:\n")
         prop += "".join(f"  {i + 1}. {e}\n" for i, e in enumerate(earlier))
         prop += f"Do something clearly DIFFERENT from all of them (different function, mechanism and trigger). {aim}\n"
+        if pid in hints:
+            prop += ("\nSuggested places that no earlier regression touched (paths under src/funtracks; pick one through "
+                     "which THIS property can be broken - if none of them can, pick another function that looks rarely "
+                     "exercised): " + "; ".join(hints[pid]) + "\n")
     d = os.path.join(out, pid)
     os.makedirs(d, exist_ok=True)
     text = template.replace("{WT}", os.path.join(wtroot, pid)).replace("{OUT}", d).replace("{PROP}", prop)
